@@ -31,7 +31,7 @@ type cfg struct {
 	Level      int  `json:"level"`
 	// 0: default decompressor (no recording: no model run for compressed input), 1: recording wrapper of the
 	// library's reader, 2: eager reader (whole output known, served in random chunks, the last one with io.EOF)
-	Decomp int `json:"decomp_mode"`
+	Decomp int  `json:"decomp_mode"`
 	Hooks  bool `json:"compress_hook"` // record the deflate output through Conn.WebsocketCompressor
 }
 
